@@ -26,7 +26,11 @@ PROP = {'rule': 'rapid-generated histories of 1-5 slo-controller ConfigMap event
          'delivered): same engine, judged section drawn per case, 2-6 events incl. node relabel events; the observable is the spec '
          'READ BACK from the NodeSLO object stored after the real NodeSLOReconciler.Reconcile ran (first reconcile creates it, later '
          'ones take the update path against the previously stored, serialized object); non-trivial = on the update path the stored '
-         'spec has to lose a leaf it had before. TestVerifC20StartupRace (unit startuprace): two ConfigMap versions (v1 = what the '
+         'spec has to lose a leaf it had before. TestVerifC20Annotated (unit annotated): as delivered, system section, each node '
+         'carries the node.koordinator.sh/network-bandwidth annotation with probability 1/2 (values no ConfigMap uses) and the order '
+         'in which the three nodes are reconciled after an event is drawn; expectation per node = layering of the current ConfigMap, '
+         'totalNetworkBandwidth replaced by the node\'s OWN annotation if it has one (documented override); non-trivial = an annotated '
+         'node is reconciled before an un-annotated node that resolves to the same strategy. TestVerifC20StartupRace (unit startuprace): two ConfigMap versions (v1 = what the '
          'informer cache holds, possibly none; v2 = any, judged section not malformed); the first IsCfgAvailable reads v1 and, inside '
          'that Get, the harness moves the cache to v2 and invokes the real Create/Update handler - inline when the cache lock is free '
          '(TryLock), else in a goroutine joined after IsCfgAvailable returns; 10 % controls deliver the event afterwards; at quiescence '
@@ -41,8 +45,8 @@ PROP = {'rule': 'rapid-generated histories of 1-5 slo-controller ConfigMap event
                  'set or as not set',
                  'the built-in default of the resource-QoS section is the empty strategy (per-class defaults are applied by koordlet); '
                  'the extensions section is not judged (no extension plug-in is registered in this tree)',
-                 'nodes carry no network-bandwidth annotation (the documented per-node override of totalNetworkBandwidth is outside '
-                 'the statement); nothing is asserted about the event right after a ConfigMap delete (the statement is silent), '
+                 'nodes carry no network-bandwidth annotation except in unit annotated, where the documented per-node override of '
+                 'totalNetworkBandwidth is adopted for the annotated node itself and must not reach any other node; nothing is asserted about the event right after a ConfigMap delete (the statement is silent), '
                  'later events are judged against what was observed then',
                  'unit delivered uses a stand-in API client that stores NodeSLO objects serialized (JSON) and serves the generated nodes; '
                  'nodes are reconciled after every event whether or not the handler enqueued them (a resync does the same). unit '
